@@ -37,7 +37,9 @@ def atom(x):
     return ("object", type(x).__name__, id(x))
 
 
-def canon(s):
+def canon(s, elem_hook=None):
+    """elem_hook(schema) -> replacement canon or None, applied to members of element lists
+    (used by classifiers of known findings only)."""
     from d42.declaration import Schema
     if s is Ellipsis:
         return ("...",)
@@ -48,11 +50,25 @@ def canon(s):
         val = s.props.get(name)
         if _is_nil(val):
             continue
-        items.append((name, _cprop(name, val)))
+        items.append((name, _cprop(name, val, elem_hook)))
     return (type(s).__name__, tuple(items))
 
 
-def _cprop(name, val):
+def _cprop(name, val, elem_hook=None):
+    from d42.declaration import Schema
+    if elem_hook is not None:
+        def canon_(x):
+            if name == "elements" and isinstance(x, Schema):
+                r = elem_hook(x)
+                if r is not None:
+                    return r
+            return canon(x, elem_hook)
+    else:
+        canon_ = canon
+    return _cprop2(name, val, canon_)
+
+
+def _cprop2(name, val, canon):
     from d42.declaration import Schema
     if isinstance(val, Schema) or val is Ellipsis:
         return canon(val)
